@@ -563,6 +563,27 @@ func (e *Engine) initStubs() {
 		return st.JSONLastArg
 	})
 
+	// ---- net/url (C13: opaque, well-formed result) --------------------------------
+	e.stub("net/url.Parse", func(e *Engine, st *State, th *Thread, c *callCtx) Value {
+		ut := e.namedType("net/url", "URL")
+		zv := e.zero(ut).(*StructV)
+		su := ut.Underlying().(*types.Struct)
+		nv := &StructV{F: append([]Value(nil), zv.F...)}
+		lit := func(s string) Value { return StrV{Arr: tb.ArrLit(s), Off: tb.Int64(0), Len: tb.Int64(int64(len(s)))} }
+		for i := 0; i < su.NumFields(); i++ {
+			switch su.Field(i).Name() {
+			case "Scheme":
+				nv.F[i] = lit("zz")
+			case "Host":
+				nv.F[i] = lit("zz:1")
+			case "Path":
+				nv.F[i] = lit("/")
+			}
+		}
+		id := e.allocCells(st, ut, nv)
+		return TupleV{Ptr{Obj: id}, IfaceV{}}
+	})
+
 	// ---- time -------------------------------------------------------------------
 	e.initTimeStubs()
 }
